@@ -324,6 +324,16 @@ def run(rep):
     for s in scalars[:5]:        # plain numbers only: a Quantity on the left is outside the statement
         for r in specs:
             cases.append(mk_case(rng, {'op': 'mul', 'l': copy.deepcopy(s), 'r': copy.deepcopy(r)}, K))
+    # depth-2 products rooted in the observation: every (scalar, unitless) pair in every nesting
+    obs = [x for x in specs if x.get('prim') == 'observation'][0]
+    unitless = [x for x in specs if x.get('prim') in ('bandpass', 'reddening', 'extcurve')]
+    for sc in scalars[:6]:
+        for ul in unitless:
+            o, s_, u_ = (copy.deepcopy(x) for x in (obs, sc, ul))
+            cases.append(mk_case(rng, {'op': 'mul', 'l': {'op': 'mul', 'l': o, 'r': s_}, 'r': u_}, K))
+            cases.append(mk_case(rng, {'op': 'mul', 'l': {'op': 'mul', 'l': copy.deepcopy(obs), 'r': copy.deepcopy(ul)}, 'r': copy.deepcopy(sc)}, K))
+            if sc['scalar'] != 'quantity':
+                cases.append(mk_case(rng, {'op': 'mul', 'l': {'op': 'mul', 'l': copy.deepcopy(sc), 'r': copy.deepcopy(obs)}, 'r': copy.deepcopy(ul)}, K))
     nmatrix = len(cases)
     depth = 6 if thorough else 4
     for _ in range(40000 if thorough else 1500):
